@@ -241,17 +241,20 @@ impl LazyRaw {
         }
     }
 
-    fn clone_lazyraw(&self) -> std::result::Result<LazyRaw, Parsed> {
-        let parsed = self.parsed.load(Ordering::Relaxed);
-        if parsed.is_null() {
-            Ok(LazyRaw {
-                raw: self.raw.clone(),
-                parsed: AtomicPtr::new(std::ptr::null_mut()),
-            })
+    // The raw text is what the value is serialized to, so it is kept together with a copy of the
+    // parsed cache.
+    fn clone_lazyraw(&self) -> LazyRaw {
+        let parsed = self.parsed.load(Ordering::Acquire);
+        let parsed = if parsed.is_null() {
+            std::ptr::null_mut()
         } else {
             // # Safety
             // the pointer is immutable here, and we can clone it
-            Err(unsafe { (*parsed).clone() })
+            Box::into_raw(Box::new(unsafe { (*parsed).clone() }))
+        };
+        LazyRaw {
+            raw: self.raw.clone(),
+            parsed: AtomicPtr::new(parsed),
         }
     }
 }
@@ -270,10 +273,7 @@ impl LazyPacked {}
 impl Clone for LazyPacked {
     fn clone(&self) -> Self {
         match self {
-            Self::Raw(raw) => match raw.clone_lazyraw() {
-                Ok(raw) => Self::Raw(raw),
-                Err(v) => Self::Parsed(v),
-            },
+            Self::Raw(raw) => Self::Raw(raw.clone_lazyraw()),
             Self::NonEscStrRaw(s) => Self::NonEscStrRaw(s.clone()),
             Self::Parsed(v) => Self::Parsed(v.clone()),
         }
